@@ -127,7 +127,7 @@ func (o *orbitDBAccessController) CanAppend(entry logac.LogEntry, p identityprov
 
 	for _, k := range access {
 		if k == entry.GetIdentity().ID || k == "*" {
-			return p.VerifyIdentity(entry.GetIdentity())
+			return accesscontroller.VerifyEntryAuthor(entry, p)
 		}
 	}
 
